@@ -34,6 +34,11 @@ type Opts struct {
 	State    xmpp.SessionState // extra bits (e.g. Secure|Authn)
 	Local    string            // default "me@example.net/lib" (c2s) or "example.net" (s2s)
 	Remote   string            // default "example.net" / "example.org"
+	// Layered makes the negotiator hand the session a plain io.ReadWriter
+	// wrapped around the connection first (as a stream feature that installs a
+	// compression or security layer does), so that the session's transport is
+	// a non-net.Conn layer whose deadlines are proxied to the real connection.
+	Layered bool
 }
 
 // NS returns the content namespace for o.
@@ -79,6 +84,13 @@ func xmlEsc(s string) string {
 func NopNegotiator(o Opts) xmpp.Negotiator {
 	o.defaults()
 	return func(ctx context.Context, in, out *stream.Info, s *xmpp.Session, data interface{}) (xmpp.SessionState, io.ReadWriter, interface{}, error) {
+		if o.Layered && data == nil {
+			c := s.Conn()
+			return 0, struct {
+				io.Reader
+				io.Writer
+			}{c, c}, "layered", nil
+		}
 		rc := s.TokenReader()
 		defer rc.Close()
 		for {
